@@ -53,6 +53,8 @@ var c19Pool = []c19User{
 	{"cn=ber", []string{"\x04\x02pa"}, "a password that looks like a BER octet string wrapping 'pa'"},
 	{"cn=scheme1", []string{"{CLEARTEXT}hunter2"}, "a password that looks like an RFC 2307 storage scheme (it is the password, as it stands)"},
 	{"cn=scheme2", []string{"{SHA}5en6G6MezRroT3XKqkdPOmY/BfQ="}, "a password that looks like a hashed value ({SHA} of 'secret')"},
+	{"alice", []string{"pal"}, "a DN that is not a DN at all (the directory compares strings)"},
+	{"uid=bob,,dc=example,dc=org", []string{"pbo"}, "a DN with an empty RDN"},
 	{"cn=cap", nil, "no password attribute, but one named Password (see c19Extra)"},
 	{"cn=both", []string{"real"}, "a password attribute next to one named Password (see c19Extra)"},
 	{"userPrincipalName=upn@example.com,ou=people,dc=example,dc=org", []string{"pu"}, "an entry named the way NewUsers names them for a UPN domain (the directory is started with Defaults.UPNDomain = example.com)"},
@@ -67,12 +69,12 @@ var c19Extra = map[string]map[string][]string{
 // c19Long: a 200-byte password; its 128-byte prefix and a variant with a different tail are tried as well
 var c19Long = strings.Repeat("0123456789abcdef", 12) + "tail-one"
 
-var c19DNs = []string{"cn=a", "cn=ab", "cn=a,dc=x", "CN=A", "cn=", "", "cn=e", "cn=d", "cn=c", "\xffcn=a", "cn=long", "cn=bin", "cn=ber", "cn=scheme1", "cn=scheme2", "cn=cap", "cn=both", "cn=group-with-password,ou=groups,dc=example,dc=org", "upn@example.com", "upn", "userPrincipalName=upn@example.com,ou=people,dc=example,dc=org"}
+var c19DNs = []string{"cn=a", "cn=ab", "cn=a,dc=x", "CN=A", "cn=", "", "cn=e", "cn=d", "cn=c", "\xffcn=a", "cn=long", "cn=bin", "cn=ber", "cn=scheme1", "cn=scheme2", "cn=cap", "cn=both", "alice", "uid=bob,,dc=example,dc=org", "cn=group-with-password,ou=groups,dc=example,dc=org", "upn@example.com", "upn", "userPrincipalName=upn@example.com,ou=people,dc=example,dc=org"}
 var c19PWs = []string{"pa", "pb", "", "p2", "other", "p1", "pa\x00", "\x00", "p", "p\x00q", "p\x00", c19Long, c19Long[:128], c19Long[:192] + "tail-two", c19Long + "\x00", "pu", "\x04\x02pa", "\x1b\x02pa", "\x04\x02pb", "gp",
 	// near misses of the stored passwords, of the same length, whose byte-wise differences cancel out under one folding or
 	// another (high bits toggled in two places, two bytes swapped, one byte up and one down)
 	"\xf0\xe1", "\xf0\xe2", "\xf0\xb1", "\xf0\xf5", "\xef\xf4her", "ap", "bp", "q`", "1p", "PA",
-	"{CLEARTEXT}hunter2", "hunter2", "{SHA}5en6G6MezRroT3XKqkdPOmY/BfQ=", "secret", "decoy", "decoy2", "real"}
+	"{CLEARTEXT}hunter2", "hunter2", "{SHA}5en6G6MezRroT3XKqkdPOmY/BfQ=", "secret", "decoy", "decoy2", "real", "pal", "pbo"}
 
 func c19Pred(users []c19User, anon bool, dn, pw string) bool {
 	if pw == "" && anon {
